@@ -126,8 +126,11 @@ void check_interest(const struct sim_wait_info *wi) {
   } else {
     for (int k = 0; k < NP; k++) { if (RFD(k) < wi->nfds && FD_ISSET(RFD(k), wi->rset)) got_r[k] = true; if (WFD(k) < wi->nfds && FD_ISSET(WFD(k), wi->wset)) got_w[k] = true; }
   }
+  // an I/O event with a timeout is taken out of the backend between its timeout firing and its callback (timeout_process deletes, the persist closure re-adds): no claim for such pipes
+  bool exempt[NP] = {false, false, false}; for (auto &m : w.e) if (m.ev && (m.def.kind == K_READ || m.def.kind == K_WRITE) && m.def.dur >= 0) exempt[m.def.k] = true;
   CK(!stray, "C11/interest-set-differs", "%s: fd %d is registered for a condition no event asked for", who(), strayfd);
   for (int k = 0; k < NP; k++) {
+    if (exempt[k]) continue;
     CK(want_r[k] == got_r[k], "C11/interest-set-differs", "%s (%s): pipe %d read end (fd %d): added read events=%d, registered with the backend=%d", who(), event_base_get_method(w.base), k, RFD(k), want_r[k], got_r[k]);
     CK(want_w[k] == got_w[k], "C11/interest-set-differs", "%s (%s): pipe %d write end (fd %d): added write events=%d, registered with the backend=%d", who(), event_base_get_method(w.base), k, WFD(k), want_w[k], got_w[k]);
   }
@@ -177,14 +180,18 @@ void exec_op(const Op &o) {
       if (w.P->nprio > 1) event_priority_set(m.ev, d.prio);
       mark("new ev%d kind=%d k=%d persist=%d rd=%d maxfire=%d dur=%lld prio=%d", o.a, d.kind, d.k, d.persist, d.rd, d.maxfire, (long long)d.dur, d.prio);
       break; }
-    case O_ADD: { MEv &m = w.e[o.a]; if (!m.ev) break; struct timeval tv = tv_of(m.def.dur < 0 ? 0 : m.def.dur);
+    case O_ADD: { MEv &m = w.e[o.a]; if (!m.ev) break;
+      if (m.manual_active && !m.added) break;   // code-derived corner left to C02: event_add on an event that is only active (not inserted) returns 0 but registers nothing
+      struct timeval tv = tv_of(m.def.dur < 0 ? 0 : m.def.dur);
       int r = event_add(m.ev, m.def.dur >= 0 ? &tv : nullptr); mark("add ev%d -> %d", o.a, r);
       CK(r == 0, "C11/add-failed", "%s: event_add(ev%d) returned %d", who(), o.a, r); m.added = true; m.fires = m.fires >= m.def.maxfire ? 0 : m.fires; break; }
     case O_DEL: { MEv &m = w.e[o.a]; if (!m.ev) break; int r = event_del(m.ev); mark("del ev%d -> %d", o.a, r);
       CK(r == 0, "C11/del-failed", "%s: event_del(ev%d) returned %d", who(), o.a, r); m.added = false; m.manual_active = false; m.act_remaining = 0; break; }
     case O_FREE: { MEv &m = w.e[o.a]; if (!m.ev) break; mark("free ev%d", o.a); event_free(m.ev); m.ev = nullptr; m.added = false; m.manual_active = false; break; }
     case O_WRITE: { char b[8]; memset(b, 'a' + o.a, sizeof b); ssize_t r = __real_write(WFD(o.a), b, (size_t)o.b); mark("write pipe%d %d bytes -> %zd", o.a, o.b, r); break; }
-    case O_ACTIVE: { MEv &m = w.e[o.a]; if (!m.ev) break; short what = m.def.kind == K_READ ? EV_READ : m.def.kind == K_WRITE ? EV_WRITE : m.def.kind == K_TIMER ? EV_TIMEOUT : EV_SIGNAL;
+    case O_ACTIVE: { MEv &m = w.e[o.a]; if (!m.ev) break;
+      if (m.def.persist && m.def.dur >= 0 && !m.added) break;   // code-derived corner left to C01: activating a deleted persistent event that still carries an interval re-adds it
+      short what = m.def.kind == K_READ ? EV_READ : m.def.kind == K_WRITE ? EV_WRITE : m.def.kind == K_TIMER ? EV_TIMEOUT : EV_SIGNAL;
       event_active(m.ev, what, (short)o.b); m.manual_active = true; mark("event_active ev%d what=0x%x ncalls=%d", o.a, what, o.b); break; }
     case O_RAISE: { mark("raise SIG%s", SIGN[o.a]); raise(SIGS[o.a]); break; }
     case O_ADVANCE: { sim_advance_us(o.d); mark("clock +%lldus", (long long)o.d); break; }
